@@ -191,6 +191,36 @@ def run(chk, tier):
     for i, p in enumerate(unsat_progs):
         cfg = std if rnd.random() < 0.5 else strong[rnd.randrange(len(strong))]
         urows.append({"id": "u%d" % i, "prog": p["prog"], "cfg": cfg, "inputs": ["zero", "pm1", "rand"] if i % 2 else ["pm1", "zero", "zero"]})
+    # boundary block (independent of the seed): every range check / bounded exponent at the FIRST value that
+    # violates it (x = 2^n for a bound of n bits), one bit above, and at 2^62 - the inputs that a missing
+    # high-limb constraint would let through; plus every assertion opcode on unequal / non-zero inputs
+    range_bits = [1, 2, 8, 16, 32, 63, 64]
+    exp_bits = [1, 4, 16, 64]
+    seen_b = set()
+    for p in sorted(p1, key=lambda q: json.dumps(q["prog"], sort_keys=True)):
+        ins = p["prog"]["instrs"][0]
+        op, a = ins["op"], ins["args"]
+        if op == "range":
+            n = range_bits[a[1] % 7]
+        elif op == "exp":
+            n = exp_bits[a[2] % 4]
+        elif op in ("assert_eq", "assert_zero", "inverse", "div"):
+            n = None
+        else:
+            continue
+        if n is not None and n >= 64:
+            continue
+        key = (op, n, a[0] % 3 if op == "range" else tuple(x % 3 for x in a[:2]))
+        if key in seen_b:
+            continue
+        seen_b.add(key)
+        if n is None:
+            vecs = [["zero", "one", "two"], ["pm1", "zero", "pm2"]] if op in ("assert_eq", "assert_zero") else [["zero", "zero", "zero"]]
+        else:
+            hi = "pow2:62" if n < 62 else "pow2:63"
+            vecs = [["pow2:%d" % n] * 3, ["pow2:%d" % min(n + 1, 63)] * 3, [hi] * 3]
+        for j, v in enumerate(vecs):
+            urows.append({"id": "ub%d_%d" % (len(seen_b), j), "prog": p["prog"], "cfg": std, "inputs": v})
     ures = c01.run_parallel(urows, "c02_unsat", nproc=4)
     nun = 0
     for s in urows:
